@@ -8,6 +8,7 @@ import numpy
 
 from mpv import arr, cmdgen
 
+ANCHORS = ['mpilot/libraries/eems/fuzzy.py:FuzzyXOr.execute', 'mpilot/libraries/eems/fuzzy.py:FuzzySelectedUnion.execute', 'mpilot/libraries/eems/mixins.py:SameArrayShapeMixin.validate_array_shapes', 'mpilot/libraries/eems/basic.py:NormalizeCurveZScore.execute']   # repository functions the workload must enter (reported as anchors_reached / anchors_missed)
 LEVEL = "exploration"
 RULE = ("every built-in data command x shapes of rank 1-3 incl. length-1 axes x common cell permutation x reshape to another rank; "
         "distinct by (command, n, source shape rank, target rank, has length-1 axis, dtypes, mask class)")
